@@ -64,8 +64,7 @@ class SeqDriver:
         self.handles = []
         self.evs = []
         self.resets = 0
-        # The state graph lives in this (forked) process.  freeze() is O(1) and keeps it out of every later collection; a full
-        # collect() here would touch every inherited object and copy the parent's whole heap page by page (copy-on-write).
+        # The state graph lives in this process.  freeze() is O(1) and keeps it out of the periodic collections below.
         gc.freeze()
         gc.disable()          # no finalizer may run at a moment the walk did not choose (Drop is an explicit step)
 
@@ -274,4 +273,5 @@ class SeqDriver:
         self._drop_all()
         if self.vloop is not None:
             self.vloop.close()
+        gc.unfreeze()
         gc.enable()
